@@ -94,3 +94,28 @@ func TestReplayPEPageHashNoPanicBoundedAllocation(t *testing.T) {
 		t.Errorf("oversized section: %d bytes allocated while reading a %d-byte image", grown, len(liar))
 	}
 }
+
+// the certificate table buffer of the verifier: its size is a field of the data directory
+func TestReplayVerifyImageWithAnImplausibleCertificateTableSize(t *testing.T) {
+	img := peImage(224, 512, 1)
+	// data directory entry 4 (certificate table) of a PE32 optional header: offset 96 + 8*4 into the header
+	opt := 64 + 4 + 20
+	binary.LittleEndian.PutUint32(img[opt+96+32:], uint32(len(img))) // table starts at the end of the file
+	binary.LittleEndian.PutUint32(img[opt+96+36:], 1<<28)            // and claims 256 MiB
+	var before, after runtime.MemStats
+	runtime.ReadMemStats(&before)
+	func() {
+		defer func() {
+			if r := recover(); r != nil {
+				t.Errorf("VerifyPE panicked: %v", r)
+			}
+		}()
+		if _, err := VerifyPE(bytes.NewReader(img), true); err == nil {
+			t.Errorf("certificate table of 256 MiB in a %d-byte file: accepted", len(img))
+		}
+	}()
+	runtime.ReadMemStats(&after)
+	if grown := after.TotalAlloc - before.TotalAlloc; grown > 16<<20 {
+		t.Errorf("%d bytes allocated while verifying a %d-byte image", grown, len(img))
+	}
+}
